@@ -194,7 +194,8 @@ fn judge_family(r: &mut UnitResult, fam: &str, max_depth: usize) {
             Exit::Signal(s, _) => {
                 r.nontrivial += 1;
                 r.violate(
-                    format!("crash|{}|{}", fam, isolate::signal_name(s)),
+                    // beyond 20000 links the exact depth at which the native stack runs out depends on the build
+                    format!("crash|{}|{}{}", fam, isolate::signal_name(s), if d > 20_000 { "|depth>20000" } else { "" }),
                     format!("nesting family '{}' at depth {} ({} bytes): process killed by {} (native stack overflow / abort); deepest member handled cleanly: {}", fam, d, nest(fam, d).len(), isolate::signal_name(s), max_ok_depth),
                     json!({"family": fam, "depth": d}),
                 );
@@ -226,7 +227,7 @@ fn judge_family(r: &mut UnitResult, fam: &str, max_depth: usize) {
                 Exit::Timeout(_) => r.inconclusive += 1,
                 Exit::Signal(s, _) => {
                     r.violate(
-                        format!("crash|{}|{}", fam, isolate::signal_name(s)),
+                        format!("crash|{}|{}{}", fam, isolate::signal_name(s), if mid > 20_000 { "|depth>20000" } else { "" }),
                         format!("nesting family '{}' at depth {}: process killed by {}", fam, mid, isolate::signal_name(s)),
                         json!({"family": fam, "depth": mid}),
                     );
